@@ -15,8 +15,10 @@ import OpcuaModel.Model.Subs
         time.Sleep(time.Second)
       }
 
-  The republished message is handed to the application; nothing is added to
-  `pendingAcks` (mirrored as it is).
+  The republished message is handed to the application and — since the repair of
+  C26.republished-never-acknowledged — a SubscriptionAcknowledgement for it is appended
+  to `pendingAcks` under `subMux`, as `handleNotification` does for a message received
+  through Publish.
 -/
 namespace Opcua.Rep
 
@@ -75,13 +77,14 @@ def honest (q : List Nat) (n : Nat) : Answer := if n ∈ q then .msg n else .not
 def contiguousFrom (q : List Nat) (n : Nat) : Prop := ∀ s ∈ q, n ≤ s → ∀ t, n ≤ t → t ≤ s → t ∈ q
 
 /-- what the loop leaves in the client's bookkeeping: `lastSeq` / `nextSeq` of the
-    subscription advance; `pendingAcks` is not touched (the republished messages are
-    handed to the application but never queued for acknowledgement) -/
+    subscription advance and one acknowledgement per republished message is queued, in
+    the order of delivery -/
 def intoClient (c : Subs.Client) (id : Nat) (r : Result) : Subs.Client :=
   match Subs.findSub c.subs id with
   | some s =>
     if r.delivered = [] then c
-    else { c with subs := Subs.setSub c.subs { s with lastSeq := r.nextSeq - 1, nextSeq := r.nextSeq } }
+    else { pending := c.pending ++ r.delivered.map (fun q => ⟨id, q⟩),
+           subs := Subs.setSub c.subs { s with lastSeq := r.nextSeq - 1, nextSeq := r.nextSeq } }
   | none => c
 
 end Opcua.Rep
